@@ -13,6 +13,16 @@ CLAIMED = {
    text="Generated-input search: ~400k (operator, operand tuple, code-path shape, configuration) evaluations per quick run on the real engine in forked workers, each compared with an independent exact-rational / IEEE-double model on the canonical value (read from the SteelVal, not the printer). Finds wrong values, wrap-around (overflow checks are on), non-canonical representations, panics. Not a proof: magnitudes beyond 2^192 and operators outside the listed set are not explored.",
    note="Trusted: num-bigint/num-rational/Rust f64 as reference arithmetic; the canonical value walker (steel::verif::canon, feature verif). `=` is exercised with two operands only (Steel's `=` is binary; a third operand is a clean arity error). For mixed exact/inexact operands both the correctly rounded and the numerator/denominator-wise conversion are accepted.",
    design="DESIGN.md section 4, C10"),
+ "C03": dict(
+   technique="property-based testing with a metamorphic oracle (update on a shared value == update on a fresh copy; earlier values keep their canonical form) over generated collection scripts under nine holder patterns incl. native threads",
+   text="Generated-input search: 12000 (quick) collection scripts; every functional update on lists, immutable vectors, hash maps, hash sets, strings and byte vectors is applied under a holder pattern (direct, let-bound last use, chained on an unshared intermediate, function parameter 1st..7th called by name / apply / first-class, closure capture invoked twice, old and new kept together, held in a container, computed in another native thread, another native thread holding its own clone while this thread updates at its last use); all live values are re-observed after the updates. Violation = an earlier value's canonical form changed (also as a component of a result), or a piece gives the model's result in a fresh engine with variables rebuilt from literals but not in the sharing context. JIT on and off. Bounded by script length and the operation set.",
+   note="Trusted: canonical value walker; the functional model only to name the expected value (the persistence oracle itself is model independent). Sharing through continuations is exercised by C08. Disagreements with the model that do not depend on sharing are counted and left to C11.",
+   design="DESIGN.md section 4, C03"),
+ "C11": dict(
+   technique="model-based property-based testing: generated collection scripts against a purely functional Rust model (maps and sets keyed by canonical form), with equal?/hash agreement checks on differently built and perturbed copies",
+   text="Generated-input search: 20000 (quick) scripts over lists, immutable and (unmutated) mutable vectors, hash maps, hash sets, strings, byte vectors and scalars nested to depth 3, with internal sharing and collections as keys; ~60 operations incl. boundary and out-of-range indices (an error is expected); per equality step: reflexivity, symmetry, a copy built with different sharing is equal?, a copy differing in one leaf and a copy with the same leaves under a different nesting are not, and hash-ref / hash-contains? / hashset-contains? / member / hash-length agree with that. Every result is compared with the model's canonical value. JIT on and off.",
+   note="Trusted: the model's operation semantics, taken from the doc comments of steel-core's primitives (e.g. hashset-difference is documented and implemented as the symmetric difference; hash-union is left biased). Floats are left to C10; mutation of vectors to C01/C04.",
+   design="DESIGN.md section 4, C11"),
  "C02": dict(
    technique="differential property-based testing: generated programs and evaluation histories run under 7 (quick) / 24 (thorough) combinations of the optimisation switches (JIT, inlining, recursive inlining, closure lifting, module inlining), all compared with each other and with the reference interpreter",
    text="Generated-input search: each generated program / history (same generators as C01 and C06) is executed in forked workers under every selected combination of STEEL_JIT, STEEL_INLINE, STEEL_INLINE_RECURSIVE, STEEL_CLOSURE_LIFTING and STEEL_MODULE_INLINE, as top-level text and as a module; values, output and outcome must be identical across configurations (and equal to the reference interpreter). A failure is classed jitdiv (only the JIT differs) or cfgdiv. Bounded by the generators; no proof.",
